@@ -136,6 +136,9 @@ fn related_st(rng: &mut Rng, a: &[Elem]) -> Vec<Elem> {
 fn to_moc2(m: &[Elem]) -> RangeMOC2<u64, Time<u64>, u64, Hpx<u64>> {
   RangeMOC2::new(DT_(), DS, m.iter().map(|e| RangeMOC2Elem::new(mk_moc(DT_(), &e.0), mk_moc(DS, &e.1))).collect())
 }
+fn to_moc2_at(m: &[Elem], dt: u8, ds: u8) -> RangeMOC2<u64, Time<u64>, u64, Hpx<u64>> {
+  RangeMOC2::new(dt, ds, m.iter().map(|e| RangeMOC2Elem::new(mk_moc(dt, &e.0), mk_moc(ds, &e.1))).collect())
+}
 fn from_moc2(m: RangeMOC2<u64, Time<u64>, u64, Hpx<u64>>) -> Vec<Elem> {
   m.into_range_moc2_iter().map(|e| { let (t, s) = e.mocs(); (moc_ranges_u64(&t), moc_ranges_u64(&s)) }).collect()
 }
@@ -162,15 +165,30 @@ fn c08_pass(sink: &mut Sink, rng: &mut Rng, thorough: bool) {
   let n = if thorough { 30_000 } else { 700 };
   let (tp, sp) = (nats(&grid_t()), nats(&grid_s()));
   for i in 0..n {
-    let a = random_st(rng);
-    let b = match i % 8 { 0 => a.clone(), 1 => vec![], 2 | 3 | 4 => related_st(rng, &a), _ => random_st(rng) };
+    let mut a = random_st(rng);
+    let mut b = match i % 8 { 0 => a.clone(), 1 => vec![], 2 | 3 | 4 => related_st(rng, &a), _ => random_st(rng) };
     sink.count(if (2..=4).contains(&(i % 8)) { "pair:related" } else { "pair:independent" });
+    if i % 32 == 20 {
+      // the sub-cell range in the operand the other one was derived from
+      if let Some(e) = a.first_mut() { let r0 = e.1[0].clone(); e.1[0] = r0.start..r0.start + sunit() / 4; }
+    }
+    // 1 pair out of 16: space depth 1 for both operands, one space range of `b` cut down to a QUARTER of a
+    // depth-0 cell (a coverage strictly nested in the corresponding one of a related operand)
+    let ds: u8 = if i % 16 == 4 || i % 16 == 13 || i % 16 == 9 {
+      if i % 32 != 20 && (i % 16 != 9 || rng.chance(1, 2)) {
+        if let Some(e) = b.first_mut() { let r0 = e.1[0].clone(); e.1[0] = r0.start..r0.start + sunit() / 4; }
+      }
+      sink.count("pair:sub-cell-space-range");
+      DS + 1
+    } else { DS };
+    // 1 pair out of 16: the two operands DECLARE different space depths (a: 0, b: 1)
+    let dsa: u8 = if i % 16 == 9 { sink.count("pair:different-declared-space-depths"); DS } else { ds };
     let (ta, tb) = (st_txt(&a), st_txt(&b));
-    for (x, y, tx, ty) in [(&a, &b, &ta, &tb), (&b, &a, &tb, &ta)] {
+    for (x, y, tx, ty, dx, dy) in [(&a, &b, &ta, &tb, dsa, ds), (&b, &a, &tb, &ta, ds, dsa)] {
       let forms: Vec<(&str, Box<dyn Fn() -> RangeMOC2<u64, Time<u64>, u64, Hpx<u64>>>)> = vec![
-        ("or", Box::new(|| to_moc2(x).or(&to_moc2(y)))),
-        ("into_or", Box::new(|| to_moc2(x).into_or(to_moc2(y)))),
-        ("iter-or", Box::new(|| moc::moc2d::range::op::or::or(to_moc2(x).into_range_moc2_iter(), to_moc2(y).into_range_moc2_iter()).into_range_moc2())),
+        ("or", Box::new(move || to_moc2_at(x, DT_(), dx).or(&to_moc2_at(y, DT_(), dy)))),
+        ("into_or", Box::new(move || to_moc2_at(x, DT_(), dx).into_or(to_moc2_at(y, DT_(), dy)))),
+        ("iter-or", Box::new(move || moc::moc2d::range::op::or::or(to_moc2_at(x, DT_(), dx).into_range_moc2_iter(), to_moc2_at(y, DT_(), dy).into_range_moc2_iter()).into_range_moc2())),
       ];
       for (name, f) in forms {
         sink.count(&format!("form:{}", name));
@@ -179,8 +197,8 @@ fn c08_pass(sink: &mut Sink, rng: &mut Rng, thorough: bool) {
           Ok((d, out)) => {
             sink.emit(&format!("st_sem 14 {} {} {} {}", tx, ty, tp, sp), &bits_of(&out), !(x.is_empty() && y.is_empty()));
             sink.emit(&format!("st_valid {}", st_txt(&out)), "true", !out.is_empty());
-            if d != (DT_(), DS) {
-              sink.impl_failures.push(format!("C08 depths of the union are {:?}, expected ({}, {}): {} | {}", d, DT_(), DS, tx, ty));
+            if d != (DT_(), ds) {
+              sink.impl_failures.push(format!("C08 depths of the union are {:?}, expected ({}, {}): {} | {}", d, DT_(), ds, tx, ty));
             }
           }
         }
@@ -583,26 +601,54 @@ fn c19_st_pass(sink: &mut Sink, rng: &mut Rng, thorough: bool, dir: &std::path::
       Err(e) => Err(format!("unreadable: {}", e)),
     }
   }
+  // finer grid: the four quarters of every time cell and of every space cell (operands of different depths)
+  let gt2: Vec<u64> = { let mut v = Vec::new(); for c in 0..NT { for q in 0..4u64 { v.push(t0() + c * tunit() + q * (tunit() / 4)); } } v.push(t0() + NT * tunit() - 1); v };
+  let gs2: Vec<u64> = { let mut v = Vec::new(); for c in 0..=NS { for q in 0..4u64 { v.push(c * sunit() + q * (sunit() / 4) + 5); } } v };
+  let bits2 = |m: &[Elem]| -> String {
+    let mut s = String::new();
+    for t in &gt2 { for p in &gs2 { s.push(if m.iter().any(|e| mem(&e.0, *t) && mem(&e.1, *p)) { '1' } else { '0' }); } }
+    s
+  };
+  let (tp2, sp2) = (nats(&gt2), nats(&gs2));
+  let to_moc2_d = |m: &[Elem], dt: u8, ds: u8| -> RangeMOC2<u64, Time<u64>, u64, Hpx<u64>> {
+    RangeMOC2::new(dt, ds, m.iter().map(|e| RangeMOC2Elem::new(mk_moc(dt, &e.0), mk_moc(ds, &e.1))).collect())
+  };
   for i in 0..n {
-    let a = random_st(rng);
-    let b = match i % 5 { 0 => a.clone(), 1 => vec![], 2 | 3 => related_st(rng, &a), _ => random_st(rng) };
+    let mut a = random_st(rng);
+    let mut b = match i % 5 { 0 => a.clone(), 1 => vec![], 2 | 3 => related_st(rng, &a), _ => random_st(rng) };
+    // 1 pair out of 3: ONE operand is deeper than the other (space depth 1 instead of 0, time depth + 1 when
+    // possible), with a sub-cell range so that the result needs the deeper depths
+    let (mut da, mut db) = ((DT_(), DS), (DT_(), DS));
+    if i % 3 == 2 {
+      let right = rng.chance(2, 3);
+      let ddt: u8 = if DT_() < 61 && rng.chance(1, 2) { 1 } else { 0 };
+      let dds: u8 = if ddt == 0 || rng.chance(1, 2) { 1 } else { 0 };
+      let m = if right { &mut b } else { &mut a };
+      if let Some(e) = m.first_mut() {
+        if dds == 1 { let r0 = e.1[0].clone(); e.1[0] = r0.start..r0.start + sunit() / 4; }
+        if ddt == 1 { let r0 = e.0[0].clone(); e.0[0] = r0.start..r0.start + tunit() / 2; }
+      }
+      if right { db = (DT_() + ddt, DS + dds); } else { da = (DT_() + ddt, DS + dds); }
+      sink.count(&format!("st-op:operands-of-different-depths:{}-deeper", if right { "right" } else { "left" }));
+    }
+    let (dmax1, dmax2) = (da.0.max(db.0), da.1.max(db.1));
     let (pa, pb) = (dir.join("st_a.fits"), dir.join("st_b.fits"));
-    rangemoc2d_to_fits_ivoa(&to_moc2(&a), None, None, std::fs::File::create(&pa).unwrap()).unwrap();
-    rangemoc2d_to_fits_ivoa(&to_moc2(&b), None, None, std::fs::File::create(&pb).unwrap()).unwrap();
+    rangemoc2d_to_fits_ivoa(&to_moc2_d(&a, da.0, da.1), None, None, std::fs::File::create(&pa).unwrap()).unwrap();
+    rangemoc2d_to_fits_ivoa(&to_moc2_d(&b, db.0, db.1), None, None, std::fs::File::create(&pb).unwrap()).unwrap();
     let (ta, tb) = (st_txt(&a), st_txt(&b));
     for (tt, name) in [(14u32, "union"), (8, "inter"), (4, "minus")] {
       let outp = dir.join("st_out.fits");
       let _ = std::fs::remove_file(&outp);
       let o = run_moc(&["op", name, pa.to_str().unwrap(), pb.to_str().unwrap(), "fits", outp.to_str().unwrap()], None);
       sink.count(&format!("st-op:{}", name));
-      let line = format!("st_sem {} {} {} {} {}", tt, ta, tb, tp, sp);
+      let line = format!("st_sem {} {} {} {} {}", tt, ta, tb, tp2, sp2);
       let ans = if o.code == 0 {
         match read_st(&outp) {
           Ok((d1, d2, out)) => {
-            if !(a.is_empty() && b.is_empty()) && (d1 != DT_() || d2 != DS) {
-              sink.impl_failures.push(format!("cli-st-depths: moc op {} on ST-MOCs of depths ({}, {}) wrote depths ({}, {})", name, DT_(), DS, d1, d2));
+            if !(a.is_empty() && b.is_empty()) && (d1 != dmax1 || d2 != dmax2) {
+              sink.impl_failures.push(format!("cli-st-depths: moc op {} on ST-MOCs of depths ({}, {}) and ({}, {}) wrote depths ({}, {})", name, da.0, da.1, db.0, db.1, d1, d2));
             }
-            bits_of(&out)
+            bits2(&out)
           }
           Err(e) => e,
         }
@@ -632,7 +678,7 @@ fn c19_st_pass(sink: &mut Sink, rng: &mut Rng, thorough: bool, dir: &std::path::
     let ans = if o.code == 0 {
       match read_1d(&outp, false) {
         Ok((d, rs)) => {
-          if d != DS { sink.impl_failures.push(format!("cli-st-depths: tfold wrote an S-MOC of depth {} (ST space depth {})", d, DS)); }
+          if d != da.1 { sink.impl_failures.push(format!("cli-st-depths: tfold wrote an S-MOC of depth {} (ST space depth {})", d, da.1)); }
           gs.iter().map(|p| if mem(&rs, *p) { '1' } else { '0' }).collect()
         }
         Err(e) => e,
@@ -657,7 +703,7 @@ fn c19_st_pass(sink: &mut Sink, rng: &mut Rng, thorough: bool, dir: &std::path::
     let ans = if o.code == 0 {
       match read_1d(&outp, true) {
         Ok((d, rs)) => {
-          if d != DT_() { sink.impl_failures.push(format!("cli-st-depths: sfold wrote a T-MOC of depth {} (ST time depth {})", d, DT_())); }
+          if d != da.0 { sink.impl_failures.push(format!("cli-st-depths: sfold wrote a T-MOC of depth {} (ST time depth {})", d, da.0)); }
           gt.iter().map(|p| if mem(&rs, *p) { '1' } else { '0' }).collect()
         }
         Err(e) => e,
